@@ -122,6 +122,9 @@ inline std::vector<Candidate> candidates(const Pipe& P) {
     if (M >= 2) add("n_0*n_1", n(0) * n(1));
     { Operator o; for (int i = 0; i < M; ++i) o += n(i); add("N^2", o * o); }
     if (M >= 3) { Operator o = n(0) * MelemType(0.1) + n(1) * MelemType(0.2) + n(2) * MelemType(0.3); add("0.1n_0+0.2n_1+0.3n_2", o); }
+    // candidates that leave the low indices alone (an acceptance test that stops early never looks at them)
+    if (M >= 3) { add("n_last", n(M - 1)); add("n_(last-1)*n_last", n(M - 2) * n(M - 1)); }
+    if (P.sh.sites.size() >= 2) { const std::string& lab = P.sh.sites.back().label; Operator o; bool any = false; for (int i = 0; i < M; ++i) if (P.IC->getInfo(i).SiteLabel == lab) { o += n(i); any = true; } if (any) add("N_site[" + lab + "]^2", o * o); }
     return C;
 }
 
